@@ -9,6 +9,8 @@
    the last byte of the encoded message (`critWrite`) — only then is the "Possible duplicate!" flag required.
    `R` lines: the real qmail-rspawn report() — compared with `rreport`; predicates
    `rspawnSound/rspawnClasses/noUpgrade` on the implementation's line.
+   End to end (`relayAsReplied`, theorem `C09_relay_class`): for every `S` line the class (K/Z/D) of the line the real
+   report() relays for the real qmail-remote output must be `relayClass (expect …)` — a function of the server's replies only.
    Line formats: see harness/c09_remote.c -/
 import Drv.Util
 import Nq.RemoteSmtp
@@ -152,8 +154,13 @@ def handleS (st : Stats) (line : String) (f : List String) : IO Stats := do
       if !noUpgrade out relay then why := why ++ "relay_upgrade,"
       if !relayWithin out relay then why := why ++ "relay_text_not_from_output,"
       if headB relay == cK && !(e.v == .K && e.rl.head? == some lR) then why := why ++ "relay_K_but_not_accepted,"
+      -- end to end (C09_relay_class): the class of the line report() relays for qmail-remote's real output must be the documented
+      -- function of what the SERVER did (first recipient 4xx -> Z, 5xx -> D, else the class of the message verdict; lost -> Z)
+      if !relayAsReplied e relay then why := why ++ "relay_class_not_as_server_replied,"
+      st := st.bump ("relay_expected_" ++ String.singleton (Char.ofNat (relayClass e).toNat) ++
+                     (match e.rl.head? with | some c => "_rcpt_" ++ String.singleton (Char.ofNat c.toNat) | none => "_no_rcpt_report"))
       if why != "" then
-        IO.println s!"ORACLE kind=S in={streamS} why={why} ip={ipS} helo={heloS} sender={senderS} rcpts={rcptsS} msg={msgS} msgerr={msgerrS} chunk={chunk} wk={wk} endmode={endmode} wchunk={wchunkS} wlabel={wlabelS} wtry={wtryS} out={outS} wire={wireS} exit={exitS} relay={relayS} expected={verdictStr e.v}"
+        IO.println s!"ORACLE kind=S in={streamS} why={why} ip={ipS} helo={heloS} sender={senderS} rcpts={rcptsS} msg={msgS} msgerr={msgerrS} chunk={chunk} wk={wk} endmode={endmode} wchunk={wchunkS} wlabel={wlabelS} wtry={wtryS} out={outS} wire={wireS} exit={exitS} relay={relayS} expected={verdictStr e.v} expected_relay={String.singleton (Char.ofNat (relayClass e).toNat)}"
         st := { st with oracle := st.oracle + 1 }
       if fresh && st.samples < 3 && wfS && rcpts.length ≥ 2 && stream.contains DASH && codes.length ≥ 5 then
         IO.println s!"SAMPLE kind=S stream={streamS} nrcpt={rcpts.length} wlabel={wlabelS} out={outS} relay={relayS}"
